@@ -1,4 +1,5 @@
 import RscelModel.Lemmas.Seq2
+import RscelModel.Lemmas.BuiltinsData
 import RscelModel.Theorems.C05Compile
 /-
 C05 / C09 — compiler correctness on the larger fragment `Frag2` (Model/Spec.lean), by level of the
@@ -51,7 +52,9 @@ STILL NOT covered (`…_partial`):
   * a macro whose loop-variable argument is not an identifier;
   * functions bound by the caller and hence call logs (the log is shown to stay as it is), identifiers
     naming stored programs, environments without bindings;
-  * `BuiltinsOK` is a hypothesis — it is not proved here for the full table `stdBuiltins`.
+`BuiltinsOK` holds for the model's own tables `tableBuiltins t now` / `stdBuiltins now`
+(Lemmas/BuiltinsData.lean: `tableBuiltins_ok`, `stdBuiltins_ok`); `exec_correct2_std`,
+`compile_correct2_std`, `fold_sound2_std` are the statements for those tables without that hypothesis.
 -/
 set_option autoImplicit false
 namespace Rscel
@@ -2331,6 +2334,43 @@ example : runAt demoB 2 env0 (callCode demoB "size".toList [listLit [lit 1, lit 
         exact frag_list (by intro e he; simp only [List.mem_cons, List.mem_nil_iff, or_false] at he
                             rcases he with rfl | rfl <;> exact frag_lit _))
     (by simp [macroShape]) (by decide) (by decide) size_folded []).1
+
+end
+
+/-! ### the model's own built-ins -/
+
+section
+variable {env : Env}
+
+/-- `compile_correct2_partial` for the table of built-ins the model pipeline runs with (any table of library
+    answers `t`, any clock value): no hypothesis on the built-ins is left. -/
+theorem compile_correct2_std (t : ExtTable) (now : Int) (henv : StdEnv (tableBuiltins t now) env) {e : Ast}
+    (h : Frag2 (tableBuiltins t now) e) {b : Nat} (hd : depth e ≤ b) (hb : b < maxDepth) :
+    Runs (tableBuiltins t now) (runAt (tableBuiltins t now) b) (runFresh (tableBuiltins t now)) env
+      (compileX (tableBuiltins t now) e).cp.toCode (evalSpec (tableBuiltins t now) e env) :=
+  compile_correct2_partial (tableBuiltins_ok t now) henv h hd hb
+
+theorem exec_correct2_std (now : Int) (henv : StdEnv (stdBuiltins now) env) {e : Ast}
+    (h : Frag2 (stdBuiltins now) e) (hd : depth e < maxDepth) :
+    run (stdBuiltins now) env e = outOf (evalSpec (stdBuiltins now) e env) [] :=
+  exec_correct2_partial (stdBuiltins_ok now) henv h hd
+
+theorem fold_sound2_std (now : Int) (henv : StdEnv (stdBuiltins now) env) {e : Ast}
+    (h : Frag2 (stdBuiltins now) e) (hd : depth e < maxDepth) {v : Val} (hc : compile (stdBuiltins now) e = .const v) :
+    v = evalSpec (stdBuiltins now) e env :=
+  fold_sound2_partial (stdBuiltins_ok now) henv h hd hc
+
+-- non-vacuity: the empty environment is standard for the model's built-ins; `1 + 2` is in the fragment
+example : StdEnv (stdBuiltins 0) env0 :=
+  { noProgs := np0, binds := rfl, noUser := rfl,
+    params := fun n v h => by simp [Env.getParam, env0, lookup] at h,
+    noShadow := fun _ _ => rfl }
+example : Frag2 (stdBuiltins 0) (.bin sp0 .add (lit 1) (lit 2)) :=
+  .bin _ _ _ _
+    (.member _ _ _ (fun _ _ h => by cases h) (fun _ _ h => by cases h) (fun _ _ h => by cases h)
+      (fun _ _ h => by cases h) (fun _ _ h => by cases h) (fun _ _ h => by cases h) (fun _ _ h => by cases h) rfl)
+    (.member _ _ _ (fun _ _ h => by cases h) (fun _ _ h => by cases h) (fun _ _ h => by cases h)
+      (fun _ _ h => by cases h) (fun _ _ h => by cases h) (fun _ _ h => by cases h) (fun _ _ h => by cases h) rfl)
 
 end
 
